@@ -119,6 +119,7 @@ class Sim:
         self.decide_gate = None  # optional callback(conn, ev) -> decision string (scheduler hook)
         self.inbox = []          # gate messages received but not yet handled
         self.tainted = False     # a stimulus was applied since the last poll was issued
+        self.after_signal = False
         self.scheduler = None    # object with pick(sim, held) -> (conn, decision); holds every gated m-call
         self.held = []           # conns whose pending call waits for the scheduler
         self.inflight = None     # conn whose released call has not reported its exit yet
@@ -564,6 +565,16 @@ class Sim:
             self.emit("selret", ret=ex.get("ret"), err=ex.get("err"), T=ent.get("T"))
             self.prev_idle = (ex.get("ret") == 0 and ent.get("T", 0) > 0 and not tainted)
             self._drain()
+            if getattr(self, "after_signal", False):
+                self.after_signal = False
+                if ex.get("ret") == 0 and ent.get("T", 0) > 0:
+                    # our zero-timeout poll lets the daemon go round once more as if the timeout had expired; the real
+                    # select would have slept: the monitors judge this sleep request like a quiescent point (a daemon
+                    # that acts on a signal only at its next wake-up is otherwise invisible here; seed c16-s6)
+                    q = self.emit("quiesce", T=ent.get("T"), rd=ent.get("rd"), wr=ent.get("wr"), outstanding=len(self.outstanding),
+                                  after_signal=True)
+                    for o in self.oracles:
+                        o.on_quiesce(q, self)
 
     # ------------------------------------------------------------------ stimuli (scenario)
     def report(self, cmd, text, raw=False):
@@ -661,6 +672,9 @@ class Sim:
                 raise
             self.pending_select = None
             self.prev_idle = False
+            # the select that follows is a new one, not the interrupted one: if it asks for a positive timeout and nothing is
+            # readable, the daemon really goes to sleep for that long (see run_until_quiescent)
+            self.after_signal = True
 
     def advance(self, dt):
         self.set_time(self.clock.now() + int(dt))
